@@ -84,6 +84,7 @@ func Run(args []string) *rep.Report {
 	shard := fs.String("shard", "", "i/n (internal)")
 	procs := fs.Int("procs", runtime.NumCPU(), "worker processes")
 	limit := fs.Int("limit", 0, "replay at most this many behaviours per shard (0 = all)")
+	httpEvery := fs.Int("http-every", 3, "every n-th behaviour runs with the library's HTTP provider sources in front of harness servers (0 = never)")
 	fs.Parse(args)
 	if *shard == "" {
 		return rep.RunSharded("c06", args, *procs)
@@ -95,6 +96,7 @@ func Run(args []string) *rep.Report {
 	r := rep.New()
 	idx := -1
 	steps, tolerated := 0, map[string]int{}
+	httpRuns := 0
 	err := rep.ReadNDJSON(*file, func(line []byte) error {
 		idx++
 		if idx%sn != si || (*limit > 0 && r.Evaluations >= *limit) {
@@ -104,10 +106,15 @@ func Run(args []string) *rep.Report {
 		if err := json.Unmarshal(line, &b); err != nil {
 			return fmt.Errorf("line %d: %w", idx, err)
 		}
-		d := replayOne(*cfg, &b)
+		bc := *cfg
+		bc.HTTP = *httpEvery > 0 && idx%*httpEvery == 0
+		d := replayOne(bc, &b)
+		if d.HTTP() {
+			httpRuns++
+		}
 		if d.Div == "hang" || d.Div == "blocked-read" || d.Div == "auto-refresh-missing" {
 			// confirm before alarm: a call that really waits for ever does so again, with a longer watchdog
-			c2 := *cfg
+			c2 := bc
 			c2.Watchdog = 4 * cfg.Watchdog
 			if d2 := replayOne(c2, &b); d2.Div != d.Div {
 				d.Inconclusive, d.Div = "a "+d.Div+" did not reproduce with a longer watchdog (busy machine)", ""
@@ -139,6 +146,7 @@ func Run(args []string) *rep.Report {
 		r.SetExtra("read_error", err.Error())
 	}
 	r.SetExtra("steps_replayed", steps)
+	r.SetExtra("behaviours_with_http_sources", httpRuns)
 	for k, v := range tolerated {
 		r.SetExtra("tolerated_"+k, v)
 	}
